@@ -1,7 +1,8 @@
 import PoaVerif.Model.Pre
 import PoaVerif.Facts
 /-
-  Decidable description of a *power-adjustment* block and history (the hypotheses of the envelope theorem of
+  Decidable description of a *quiet* block and history: applications (CreateValidator, RemovePending), admissions and
+  power adjustments (SetPower), rejected transactions — (the hypotheses of the envelope theorem of
   Lemmas/Quiet.lean), evaluated by the driver on every explored history (`QUIET` lines).  Definitions only.
 -/
 namespace PoaVerif
@@ -25,7 +26,10 @@ def quietTxB (s : App) (incs : List (Signer × Nat)) (tx : Tx) : Bool :=
   decide ((runTx genEnv s incs tx).2.1 = s) ||
   match tx.signer, tx.msgs with
   | .admin, [.setPower (some op) p _] =>
-    (runTx genEnv s incs tx).1 != TxR.ok || (!s.updated.contains op && !s.index.contains (p / PR, op))
+    (runTx genEnv s incs tx).1 != TxR.ok || (s.pendingFind op).isSome ||
+      (!s.updated.contains op && !s.index.contains (p / PR, op))
+  | _, [.create _] => true
+  | _, [.rmPending _] => true
   | _, _ => false
 
 def quietTxsB : List Tx → App → List (Signer × Nat) → Bool
